@@ -373,8 +373,12 @@ Schema::Evaluate(const std::string& input) const {
 }
 
 void Schema::TriggerParse(const EntityUID target) {
-  ParseCst(target);
+  // Note: results of dependants are dropped first, so that target is not checked against their outdated types
   const auto expansion = Graph().ExpandOutputs({ target });
+  for (const auto dependant : expansion) {
+    info.at(dependant).Reset();
+  }
+  ParseCst(target);
   const auto orderedList = Graph().Sort(expansion);
   for (const auto dependant : orderedList) {
     if (dependant != target) {
